@@ -1437,6 +1437,12 @@ func (vm *VM) run() (Addr, bool) {
 					} else {
 						if kind == reflect.Pointer {
 							v = v.Elem()
+						} else if kind == reflect.Array && c != 0 {
+							// The range expression is evaluated once: the
+							// iteration values are those of a copy of the array.
+							cp := reflect.New(v.Type()).Elem()
+							cp.Set(v)
+							v = cp
 						}
 						length = v.Len()
 					}
